@@ -529,9 +529,13 @@ CHECKS = {
        "trusted state (closes the forged-last-leaf attack found and repaired in 991a435), extends the trusted tree, links the states linearly; fork consistency between "
        "any two well-formed histories for any binary-linking lag; DualProofV2 binding; no altered entry verifies (entry digest injectivity + htree membership soundness). "
        "Tie: byte-exact Alh/innerHash/entry digests and verdict-exact verifiers on real stores (honest + mutated proofs + attack templates built with scratch hash trees); "
-       "oracle = the harness's own record of the history.",
-  note=TB + " Modelled rather than verified: ECDSA state signature (uninterpreted, not covered), protobuf conversion and the SDK flow in pkg/client (not yet in the model), "
-       "prover-side completeness of DualProof generation is established by correspondence + the C08 completeness theorems, not yet by a store-level theorem.",
+       "oracle = the harness's own record of the history. SQL side (added for seeded change c01-e): pkg/client VerifyRow (decodeRow + verifyRowAgainst + proof flow) is modelled; an accepted "
+       "VerifyRow means the presented row equals the decoded proven row column by column, a NULL claim only for a column the proven row has no value for (client_verifyRow_* theorems + the "
+       "early-NULL-shortcut witness); tie `vrow`: the real client over bufconn on tables of every column type with tampered rows and tampered VerifiableSQLEntry responses; oracle: success "
+       "iff the presented row is what the harness committed, trusted state advances only on success.",
+  note=TB + " Modelled rather than verified: ECDSA state signature (uninterpreted, not covered), protobuf conversion, the primary-key encoding inside VerifyRow (input of the model; C15), JSON columns, "
+       "prover-side completeness of DualProof generation is established by correspondence + the C08 completeness theorems, not yet by a store-level theorem. "
+       "Known: the catalog part of VerifiableSQLEntry (column ids/types/pk ids) is not covered by any proof (known findings catalog-metadata-unauthenticated).",
   technique="Lean 4 proof (collision-explicit soundness of the verifier models) + differential correspondence on real stores with mutation/attack streams",
   design="7/C01"),
  "C08": dict(
